@@ -570,6 +570,9 @@ def run_fuzz(cid, unit, fz, seed):
     shutil.rmtree(cache, ignore_errors=True)
     if r.rc == 0:
         return {"status": "ok", "info": info, "run": r}
+    if "VERIF-HARNESS-BUG" in r.out or "VERIF-INCONCLUSIVE" in r.out or "panic: test timed out" in r.out:
+        info["note"] = "harness problem or timeout inside fuzz target"
+        return {"status": "inconclusive", "info": info, "run": r}
     if "Failing input written to" in r.out or "--- FAIL" in r.out:
         if "context deadline exceeded" in r.out and "Failing input" not in r.out:
             info["note"] = "fuzz worker deadline"
